@@ -331,8 +331,9 @@ async def run_conn(loop: VLoop, c, middleware=None, upload_handler=None, handler
                 racy = False
         try:
             if k == "d":
-                # asyncio never delivers data after connection_lost, nor after transport.close()
-                if not t.closed and not lost:
+                # asyncio never delivers data after connection_lost; after transport.close() it still can: sslproto's
+                # FLUSHING state runs _do_read() once more and hands what is in the incoming BIO to the protocol
+                if not lost:
                     p.data_received(bytes.fromhex(e[1]))
             elif k == "t":
                 loop.advance(sp.REQUEST_TIMEOUT + 1)
